@@ -17,7 +17,7 @@ PROPERTY_IDS = ["C25"]
 LEVEL = "exploration"
 
 tiers = {
-    "quick": {"runs": 12000, "chunk": 200, "wall_cap_s": 900, "determinism_samples": 8,
+    "quick": {"runs": 12000, "chunk": 200, "wall_cap_s": 2400, "determinism_samples": 8,
               "max_minimise": 4, "minimise_budget_s": 30},
     "thorough": {"runs": 300000, "chunk": 500, "wall_cap_s": 3300, "determinism_samples": 40,
                  "max_minimise": 6, "minimise_budget_s": 90},
